@@ -4,7 +4,7 @@ usage (git config merge.kfunion.driver): python3 tools/kfmerge.py %O %A %B   —
 import json, sys
 base, ours, theirs = (json.load(open(p)) for p in sys.argv[1:4])
 out = dict(ours)
-def key_f(e): return (e.get("property"), e.get("id"))
+def key_f(e): return (e.get("property"), e.get("id"), e.get("monitor"), e.get("class"))
 def key_x(e): return (e.get("property"), e.get("commit"))
 for field, key in (("findings", key_f), ("fixed", key_x)):
     seen = {}
